@@ -228,6 +228,9 @@ func (e *Encoder) writeValue(val reflect.Value, tagType byte) error {
 				}
 				typ, v := getTagType(v)
 				if typ == TagEnd {
+					if v.Kind() == reflect.Pointer && v.IsNil() {
+						continue // nil pointer fields are left out, like nil embedded pointers
+					}
 					return fmt.Errorf("encode %q error: unsupport type %v", t.name, v.Type())
 				}
 
@@ -306,7 +309,9 @@ func getTagType(v reflect.Value) (byte, reflect.Value) {
 			break
 		}
 		if v.IsNil() {
-			v.Set(reflect.New(v.Type().Elem()))
+			// A nil pointer has no NBT representation.
+			// Never allocate into the caller's value.
+			return TagEnd, v
 		}
 		if v.Type().NumMethod() > 0 && v.CanInterface() {
 			i := v.Interface()
